@@ -48,6 +48,12 @@ def run_one(s, auto):
         route = {"kind": "bytes", "b": list(b)}
     except Exception as ex:
         route = {"kind": "exc", "cls": type(ex).__name__, "data": 1 if isinstance(ex, DataError) else 0}
+        # a route that was refused stays refused: the same segments encoded again (a retried Forward Open) never yield bytes
+        try:
+            b2 = PADDED_EPATH.encode(segs, length=True)
+            route = {"kind": "bytes", "b": list(b2)}
+        except Exception:
+            pass
     return {"kind": "ok", "host": cps(ip) if isinstance(ip, str) else [], "port": port if isinstance(port, int) else 0, "route": route}
 
 
